@@ -257,7 +257,10 @@ def eval_disk(item):
         exc = got = None
         try:
             p = signac.Project(d)
-            got = {j.id for j in p.find_jobs(filter_)}
+            given = json.loads(json.dumps(filter_))
+            got = {j.id for j in p.find_jobs(given)}
+            if given != filter_:
+                exc = f"find_jobs changed the caller's filter object to {given}"
         except Exception as e:  # noqa
             exc = f"{type(e).__name__}: {e}"
         outcomes.add(tuple(sorted(got)) if got is not None else "exc")
@@ -278,9 +281,133 @@ def eval_disk(item):
     return o
 
 
+SESSION_STEPS = ("as-built", "document-edited", "document-file-deleted", "document-created", "job-re-keyed", "job-removed",
+                 "job-added")
+
+
+def session_filters():
+    fs = [U.spell(a) for a in U.R30 if a[0] in ("A", "X", "N")]
+    fs += [{"$not": U.spell(("X", None, 1))}, {"$and": [U.spell(("A", "$exists", True)), U.spell(("X", "$exists", False))]},
+           {"$or": [U.spell(("X", None, 1)), U.spell(("N", "$exists", True))]}, {}]
+    return fs
+
+
+def eval_session(item):
+    """One long-lived Project object answers the same filters again after every change made behind its back (through
+    other Project objects): every answer must describe the workspace as it is at the time of the query."""
+    import shutil
+
+    import signac
+
+    _, ci, salt = item
+    corpus = list(disk_corpora())[ci]
+    viol, n = [], 0
+    outcomes = set()
+    base = os.path.join(scratch.worker_dir(), f"c06-session-{ci}")
+    shutil.rmtree(base, ignore_errors=True)
+    os.makedirs(base)
+    try:
+        signac.init_project(base)
+        state = {}
+        for sp, doc in corpus:
+            sp = dict(sp, s=salt)
+            j = signac.Project(base).open_job(sp).init()
+            if doc is not None:
+                j.doc.update(doc) if doc else j.doc.clear()
+            state[j.id] = (sp, doc)
+        session = signac.Project(base)
+        filters = session_filters()
+        pair_filters = [U.spell(("A", None, 1)), U.spell(("A", "$exists", True)), U.spell(("X", None, 1)), U.spell(("X", "$exists", False)),
+                        U.spell(("N", None, 1)), {"$not": U.spell(("X", None, 1))}, {},
+                        {"$or": [U.spell(("A", None, 2.5)), U.spell(("X", "$gte", 2.5))]}]
+        pairs = {}
+        for step in SESSION_STEPS:
+            other = signac.Project(base)
+            ids = sorted(state)
+            if step == "document-edited" and ids:
+                j = other.open_job(id=ids[0])
+                new = dict(state[ids[0]][1] or {}, x=(1 if (state[ids[0]][1] or {}).get("x") != 1 else 2.5))
+                j.doc.x = new["x"]
+                state[ids[0]] = (state[ids[0]][0], new)
+            elif step == "document-file-deleted":
+                for i in ids:
+                    if state[i][1] is not None:
+                        fn = other.open_job(id=i).fn("signac_job_document.json")
+                        if os.path.exists(fn):
+                            os.remove(fn)
+                        state[i] = (state[i][0], None)
+                        break
+            elif step == "document-created":
+                for i in reversed(ids):
+                    if state[i][1] is None:
+                        other.open_job(id=i).doc.update({"x": 1, "n": {"m": 1}})
+                        state[i] = (state[i][0], {"x": 1, "n": {"m": 1}})
+                        break
+            elif step == "job-re-keyed" and ids:
+                i = ids[-1]
+                sp, doc = state.pop(i)
+                sp = dict(sp, a=2.5)
+                if canon.job_id(sp) not in state:
+                    j = other.open_job(id=i)
+                    j.statepoint = sp
+                    state[j.id] = (sp, doc)
+                else:
+                    state[i] = (state.get(i) or (dict(sp), doc))
+            elif step == "job-removed" and ids:
+                other.open_job(id=ids[0]).remove()
+                state.pop(ids[0])
+            elif step == "job-added":
+                sp = {"a": 1, "s": salt, "added": True}
+                j = other.open_job(sp).init()
+                j.doc.x = 1
+                state[j.id] = (sp, {"x": 1})
+            def ask(sess, f, who):
+                nonlocal n
+                tree = Q.atoms(f)
+                try:
+                    want = {jid for jid, (sp, doc) in state.items() if Q.eval_tree(tree, sp, doc)}
+                except Q.IllTyped:
+                    return
+                n += 1
+                try:
+                    got = {j.id for j in sess.find_jobs(f)}
+                    exc = None
+                except Exception as e:  # noqa
+                    got, exc = None, f"{type(e).__name__}: {e}"
+                outcomes.add((step, tuple(sorted(got)) if got is not None else "exc"))
+                if got != want and len(viol) < 3:
+                    viol.append({"sig": {"kind": "session-query-stale", "step": step, "raises": exc is not None},
+                                 "scenario": f"session/corpus{ci}",
+                                 "input": {"where": "session", "corpus_index": ci, "salt": salt, "filter": f, "step": step},
+                                 "expected": sorted(want), "observed": sorted(got) if got is not None else exc,
+                                 "msg": f"{who}, after step {step!r}: find_jobs({json.dumps(f)}) -> "
+                                        f"{sorted(got) if got is not None else exc}, the workspace holds {sorted(want)}"})
+            # (a) every pair (last query before the change, first query after it), each on its own Project object
+            for (g, f), sess in pairs.items():
+                ask(sess, pair_filters[f], f"a Project whose previous query was {json.dumps(pair_filters[g])}")
+            pairs = {}
+            for g in range(len(pair_filters)):
+                for f in range(len(pair_filters)):
+                    sess = signac.Project(base)
+                    try:
+                        list(sess.find_jobs(pair_filters[g]))
+                    except Exception:  # noqa
+                        pass
+                    pairs[(g, f)] = sess
+            # (b) one Project object that lives through all steps, asked everything in both orders
+            for f in filters + filters[::-1]:
+                ask(session, f, "long-lived Project")
+    finally:
+        shutil.rmtree(base, ignore_errors=True)
+    return {"cls": f"session{ci}", "viol": viol, "n": n, "nt": f"session{ci}:{len(outcomes)}",
+            "sample": {"session_corpus": ci, "queries": n, "steps": list(SESSION_STEPS)}}
+
+
 def evaluate(item):
     if item[0] == "disk":
         return eval_disk(item)
+    if item[0] == "session":
+        return eval_session(item)
     return eval_seam(item)
 
 
@@ -294,8 +421,23 @@ def all_filters(quick):
         yield f, ps, tag
 
 
-def universe(tier, salt):
+def seam_available():
+    """The in-memory seam (index over documents + filter normalisation) is an implementation detail; if a future signac
+    no longer offers it under these names, only the on-disk part runs (and the evidence says so)."""
+    try:
+        from signac._search_indexer import _SearchIndexer  # noqa
+        from signac.filterparse import _add_prefix, parse_filter  # noqa
+        _impl_find({"a": 1}, [{"sp": {"a": 1}}])
+        return True
+    except (ImportError, AttributeError, TypeError):
+        return False
+
+
+def universe(tier, salt, seam=True):
     quick = tier == "quick"
+    if not seam:
+        yield from _disk_items(quick, salt)
+        return
     # (i) seam, atoms: singles + ordered pairs over the full value universe of the atom's path
     for a in U.all_atoms():
         jobs = [U.make_job({a[0]: v}) for v in U.U_FULL]
@@ -321,18 +463,25 @@ def universe(tier, salt):
     for f, ps, tag in U.depth3_filters():
         jobs = list(U.jobs_over(ps, U.U_RED))
         yield ("d3", f, jobs, 1 if (quick and len(ps) == 3) else 2, None)
+    yield from _disk_items(quick, salt)
+
+
+def _disk_items(quick, salt):
     # (ii) disk
     ncorp = len(list(disk_corpora()))
     filters = [f for f, _, tag in all_filters(quick) if not (quick and tag in ("or+sibling", "and-or", "or-and", "not(or-not+sibling)"))]
     for ci in range(ncorp):
         for k in range(0, len(filters), 150):
             yield ("disk", ci, salt, filters[k:k + 150])
+    for ci in range(ncorp):
+        yield ("session", ci, salt)
 
 
 def run(ctx):
     report = Report(LEVEL)
     salt = ctx.seed
-    tot = engine_i.run_items(ctx, universe(ctx.tier, salt), evaluate, chunk=8)
+    seam = seam_available()
+    tot = engine_i.run_items(ctx, universe(ctx.tier, salt, seam), evaluate, chunk=8)
     engine_i.fill_report(report, tot, rule=(
         "every atom (4 key paths x 13 operators x ~12 arguments) on every 1-job and ordered 2-job corpus of a "
         "16-value universe; every depth-2 combination of a 30-atom representative set and every depth-3 structure "
@@ -343,7 +492,11 @@ def run(ctx):
                           "disk_corpora": len(list(disk_corpora()))},
                "alphabet_sizes": {"atoms": len(list(U.all_atoms())), "depth2": len(list(U.depth2_filters())),
                                   "depth3": len(list(U.depth3_filters())), "values": len(U.U_FULL)}},
-        floor_distinct=1000)
+        floor_distinct=1000 if seam else 100)
+    report.coverage["seam_available"] = seam
+    if not seam:
+        report.assumptions.append("signac._search_indexer._SearchIndexer / filterparse._add_prefix / parse_filter are not available "
+                                  "under these names: the in-memory seam part was skipped, only Project.find_jobs on disk ran")
     report.assumptions += [
         "equality is Python == (so 1 finds 1.0 and True), as documented for integer-valued floats",
         "(filter, corpus) pairs in which any ordering atom raises TypeError on any job are outside the domain",
@@ -355,6 +508,8 @@ def run(ctx):
 def replay(payload, ctx):
     inp = payload["input"]
     f = inp["filter"]
+    if inp.get("where") == "session":
+        return eval_session(("session", inp["corpus_index"], inp.get("salt", 0)))["viol"]
     if inp.get("where") == "disk":
         o = eval_disk(("disk", inp["corpus_index"], inp.get("salt", 0), [f]))
         return o["viol"]
